@@ -602,10 +602,10 @@ impl<'a> World<'a> {
                 {
                     self.viol("settlement-receipt-differs-from-submitted-candidate".into(), json!({"receipt": format!("{rc:?}")}));
                 }
-                if s.canonical_result_bytes.len() as u64 > BUDGET {
+                if s.canonical_result_bytes.len() as u64 > budget() {
                     self.viol(
                         "settlement-admitted-beyond-declared-byte-budget".into(),
-                        json!({"len": s.canonical_result_bytes.len(), "budget": BUDGET}),
+                        json!({"len": s.canonical_result_bytes.len(), "budget": budget()}),
                     );
                 }
                 if s.attempt_id != claim.attempt_id {
